@@ -8,6 +8,7 @@ import (
 	"hash/fnv"
 	"os"
 	"path/filepath"
+	"runtime"
 	"sort"
 	"strings"
 	"sync"
@@ -355,6 +356,15 @@ func (r *Run) Finish() int {
 	for _, s := range inconcl {
 		fmt.Printf("NOTE property=%s inconclusive sub-check: %s\n", r.Prop, s)
 	}
+	if mp := takeMonPanics(); len(mp) > 0 {
+		for _, p := range mp {
+			fmt.Printf("NOTE property=%s a monitor goroutine panicked outside a guarded library call: %s\n", r.Prop, p)
+		}
+		if code == 0 {
+			fmt.Printf("INCONCLUSIVE property=%s %d monitor goroutine panic(s) outside guarded library calls and no violation observed\n", r.Prop, len(mp))
+			return 2
+		}
+	}
 	if code == 0 && !r.replayMode && (evals == 0 || distinct < 2) {
 		fmt.Printf("INCONCLUSIVE property=%s the deciding oracle observed too little (evaluations=%d distinct=%d)\n", r.Prop, evals, distinct)
 		return 2
@@ -384,11 +394,42 @@ func ParallelFor(n, w int, fn func(i int)) {
 				if i >= n {
 					return
 				}
-				fn(i)
+				guarded(fn, i)
 			}
 		}()
 	}
 	wg.Wait()
+}
+
+// a panic in a monitor goroutine outside a guarded library call (for instance the standard library failing on a
+// value the library returned) must not take the other workers' observations down with it: it is recorded, the
+// remaining cases are still judged, and Finish turns it into INCONCLUSIVE unless a violation was observed.
+var (
+	monPanicMu sync.Mutex
+	monPanics  []string
+)
+
+func guarded(fn func(int), i int) {
+	defer func() {
+		if x := recover(); x != nil {
+			buf := make([]byte, 4096)
+			buf = buf[:runtime.Stack(buf, false)]
+			monPanicMu.Lock()
+			if len(monPanics) < 8 {
+				monPanics = append(monPanics, fmt.Sprintf("%v\n%s", x, buf))
+			}
+			monPanicMu.Unlock()
+		}
+	}()
+	fn(i)
+}
+
+func takeMonPanics() []string {
+	monPanicMu.Lock()
+	defer monPanicMu.Unlock()
+	p := monPanics
+	monPanics = nil
+	return p
 }
 
 // Catch runs f and reports a panic as (value, stack-free string).
